@@ -253,6 +253,19 @@ def run(ctx, rep):
         an = analyze_fn(F, fn)
         w = wh(fn["span"])
         pcs = [c for c in an.calls() if c.callee_qual == "file::parse_ident"]
+        if not pcs:
+            # the header may be read by a private helper of the opening function (`read_file_header(&mut reader)`): judged there
+            from ..engine import program as _prog
+            pr_ = _prog(F)
+            helpers = []
+            for c_ in an.calls():
+                lf_ = pr_.local_fn(c_.callee)
+                if lf_ is not None and not pr_.known_name(lf_) and lf_["kind"] != "Closure" and lf_ not in helpers:
+                    if any(x.callee_qual == "file::parse_ident" for x in analyze_fn(F, lf_).calls()):
+                        helpers.append(lf_)
+            if len(helpers) == 1:
+                an = analyze_fn(F, helpers[0])
+                pcs = [c for c in an.calls() if c.callee_qual == "file::parse_ident"]
         good = len(pcs) == 1 and pcs[0].callee.get("generics") == ["E"]
         if good:
             a = pcs[0].args[0]
